@@ -225,6 +225,88 @@ impl Cube {
 }
 
 // ---------------------------------------------------------------------------------------------
+// involutive theory: mapping cone of 1 + tau over F_2
+// ---------------------------------------------------------------------------------------------
+
+impl Cube {
+    /// The chain map induced by a diagram involution given on edges: crossings are carried to the
+    /// crossing with the image edge set (keeping the smoothing type), circles to their image edge
+    /// sets, labels along.  tau[r][g] = index (within degree r) of the image of generator g.
+    pub fn involution(&self, dg: &Diagram, emap: &dyn Fn(Edge) -> Edge) -> Result<Vec<Vec<usize>>, String> {
+        let xs: Vec<usize> = (0..dg.xs.len()).filter(|&i| dg.xs[i].resolved.is_none()).collect();
+        let mut xmap = vec![0usize; xs.len()];
+        for (k, &xi) in xs.iter().enumerate() {
+            let mut img: Vec<Edge> = dg.xs[xi].e.iter().map(|&e| emap(e)).collect();
+            img.sort();
+            let pos = xs.iter().position(|&xj| { let mut e = dg.xs[xj].e.to_vec(); e.sort(); e == img });
+            match pos {
+                Some(k2) => xmap[k] = k2,
+                None => return Err(format!("crossing {:?} has no image under the involution", dg.xs[xi].e)),
+            }
+        }
+        let mut circ_cache: BTreeMap<u64, Vec<Vec<Edge>>> = BTreeMap::new();
+        let mut circles = |s: u64| -> Vec<Vec<Edge>> { circ_cache.entry(s).or_insert_with(|| dg.circles(s)).clone() };
+        let mut out = vec![];
+        for r in 0..=self.n {
+            let index: BTreeMap<(u64, u64), usize> = self.gens[r].iter().enumerate().map(|(i, g)| ((g.state, g.labels), i)).collect();
+            let mut col = vec![];
+            for g in &self.gens[r] {
+                let mut s2 = 0u64;
+                for k in 0..self.n {
+                    if (g.state >> k) & 1 == 1 { s2 |= 1 << xmap[k]; }
+                }
+                let (c1, c2) = (circles(g.state), circles(s2));
+                let mut l2 = 0u64;
+                for (i, c) in c1.iter().enumerate() {
+                    let mut img: Vec<Edge> = c.iter().map(|&e| emap(e)).collect();
+                    img.sort();
+                    let Some(j) = c2.iter().position(|x| *x == img) else { return Err("circle has no image under the involution".into()) };
+                    l2 |= ((g.labels >> i) & 1) << j;
+                }
+                match index.get(&(s2, l2)) {
+                    Some(&i) => col.push(i),
+                    None => return Err("generator has no image under the involution".into()),
+                }
+            }
+            out.push(col);
+        }
+        Ok(out)
+    }
+
+    /// dimensions over F_2 of the homology of Cone(1 + tau): cone^i = C^i (+) C^{i-1},
+    /// d(x, y) = (dx, x + tau x + dy).  Entries of the cube differential are taken mod 2.
+    pub fn cone_homology_mod2(&self, tau: &[Vec<usize>]) -> BTreeMap<i32, usize> {
+        let n = self.n;
+        let dim = |r: isize| -> usize { if r < 0 || r as usize > n { 0 } else { self.gens[r as usize].len() } };
+        // cone index c = 0..=n+1 ; block sizes (dim(c), dim(c-1))
+        let mats: Vec<SparseInt> = (0..=(n + 1)).map(|c| {
+            let (b0, q0) = (dim(c as isize), dim(c as isize - 1));
+            let (b1, q1) = (dim(c as isize + 1), dim(c as isize));
+            let mut m = SparseInt::new(b1 + q1, b0 + q0);
+            if c <= n {
+                for &(i, j, v) in &self.d[c] { if v.rem_euclid(2) == 1 { m.add(i, j, 1); } }       // B x -> B dx
+                for j in 0..b0 { m.add(b1 + j, j, 1); m.add(b1 + tau[c][j], j, 1); }               // B x -> Q (x + tau x)
+            }
+            if c >= 1 && c - 1 <= n {
+                for &(i, j, v) in &self.d[c - 1] { if v.rem_euclid(2) == 1 { m.add(b1 + i, b0 + j, 1); } } // Q y -> Q dy
+            }
+            // x + tau x with tau x = x cancels mod 2
+            for row in m.data.iter_mut() { row.retain(|_, v| v.rem_euclid(2) == 1); }
+            m
+        }).collect();
+        let ranks: Vec<usize> = mats.iter().map(|m| m.smith(Some(2)).rank).collect();
+        let mut out = BTreeMap::new();
+        for c in 0..=(n + 1) {
+            let total = dim(c as isize) + dim(c as isize - 1);
+            let rin = if c > 0 { ranks[c - 1] } else { 0 };
+            let h = total - ranks[c] - rin;
+            if h > 0 { out.insert(c as i32 - self.n_minus as i32, h); }
+        }
+        out
+    }
+}
+
+// ---------------------------------------------------------------------------------------------
 // sparse integer matrices with an own Smith reduction
 // ---------------------------------------------------------------------------------------------
 
